@@ -11,13 +11,15 @@ def run(tier):
     d = vf.outdir("c13")
     consts = {"Level": 1 if tier == "quick" else 2, "Export": True}
     cfg = vf.write_cfg(os.path.join(d, "MC_Pnm.cfg"), consts, invariants=["SpecConsistent", "ExportInv"])
-    r = vf.tlc("MC_Pnm", cfg, workers=8, gc="parallel", heap="8g", print_prefix='<<"REPLAY"')
+    r = vf.tlc("MC_Pnm", cfg, workers=8, gc="parallel", heap="8g")
     chk.add_mc("MC_Pnm", r, consts)
     gen_cases = os.path.join(d, "gen_cases.ndjson")
     n = nwf = ntr = 0
     with open(gen_cases, "w") as f:
         for ln in r.prints:
             t = vf.parse_print(ln)
+            if not t or t[0] != "REPLAY":
+                continue
             try:
                 bs = json.loads(t[1])
             except Exception:
